@@ -8,8 +8,10 @@ pub mod rec;
 pub mod root;
 pub mod sink;
 pub mod extra;
+pub mod seq;
 
 pub use glue::*;
 pub use outcome::*;
 pub use root::*;
 pub use sink::*;
+pub use seq::*;
